@@ -1,6 +1,7 @@
 # C08 A reliable message is released by the sender only after the peer really has it — who/what/from-where clauses
 import re
 from sa.rules import *
+import rules.wave3 as W3
 import rules.C01 as C01
 import rules.shared as shared
 RC = "remote_connection::RenetClient"
@@ -16,7 +17,7 @@ def pushed_into(t, f, local):
             if op["k"] not in ("copy", "move"): return None
             l = op["place"]["local"]
             for _ in range(6):
-                ds = f.defs().get(l, [])
+                ds = f.defs1(l)
                 if len(ds) == 1 and ds[0][2]["k"] == "assign" and ds[0][2]["rv"]["k"] in ("ref", "rawptr") and not ds[0][2]["rv"]["place"]["proj"]: return ds[0][2]["rv"]["place"]["local"]
                 if len(ds) == 1 and ds[0][2]["k"] == "assign" and ds[0][2]["rv"]["k"] == "use" and ds[0][2]["rv"]["op"]["k"] in ("copy", "move"): l = ds[0][2]["rv"]["op"]["place"]["local"]; continue
                 return l
@@ -68,24 +69,7 @@ def rules(t):
             if "sent_packets" not in a or "::remove(" not in a: r.bad(f"{name}|src", c, f"{name} argument is not taken from the removed sent-packet record: {a[:60]}")
     out.append(r)
     gp = t.fn("RenetClient::get_packets_to_send")
-    r = RuleResult("C08.c", "every emitted packet is recorded under its own sequence with what it carries", floor=5)
-    ins = list(t.effects("sent_packets", {"insert"}, gp))
-    kinds = set()
-    for c in ins:
-        r.site(c)
-        key, rec = fmt(t.arg(c, 1)), t.arg(c, 2)
-        m = re.search(r"as (SmallReliable|SmallUnreliable|ReliableSlice|UnreliableSlice|Ack)\.sequence", key)
-        if not m: r.bad("key", c, f"record key is not the packet's sequence: {key[:60]}"); continue
-        kind = m.group(1); kinds.add(kind)
-        info = fmt(rec)
-        want = {"SmallReliable": "ReliableMessages", "ReliableSlice": "ReliableSliceMessage", "Ack": "PacketSentInfo::Ack", "SmallUnreliable": "PacketSentInfo::None", "UnreliableSlice": "PacketSentInfo::None"}[kind]
-        if want.split("::")[-1] not in info: r.bad(f"info|{kind}", c, f"{kind} packet recorded as {info[:80]}")
-        if kind == "ReliableSlice" and not (re.search(r"as ReliableSlice\.slice\.message_id", info) and re.search(r"as ReliableSlice\.slice\.slice_index", info)): r.bad("slice-info", c, "slice record does not carry the slice's own message id / index")
-        if kind == "SmallReliable" and "as SmallReliable.messages" not in info and "collect" not in info: r.bad("ids-info", c, "message-id record not derived from the packet's messages")
-        if "current_time" not in info: r.bad(f"time|{kind}", c, "sent_at is not the current time")
-    for k in ("SmallReliable", "SmallUnreliable", "ReliableSlice", "UnreliableSlice", "Ack"):
-        if k not in kinds: r.bad(f"missing|{k}", None, f"{k} packets are not recorded in sent_packets")
-    out.append(r)
+    out.append(shared.sent_record_rule(t, "C08.c"))
     r = RuleResult("C08.d", "only parsed packets are acknowledged, by their own sequence; ack packet = the pending ranges", floor=3)
     calls = list(t.calls(r"RenetClient::add_pending_ack$"))
     for c in calls:
@@ -110,4 +94,6 @@ def rules(t):
     out.append(shared.ack_once(t, "C08.f"))
     out.append(shared.seq_unique(t, "C08.g"))
     out.append(shared.range_algebra(t, "C08.h"))
+    out.append(W3.ack_lookup_range(t, "C08.i"))
+    out.append(W3.decoder_append_only(t, "C08.j"))
     return out
